@@ -7,8 +7,60 @@ Driver section "grpadv": the real hash grouper with injected hash values against
 namespace QF.Drv
 open QF
 
+/-- Big GroupBy (keys by formula: row i has key i mod k): the result must be the partition into key classes, rows of a
+class in row order. Linear-time check with arrays. -/
+def grpBigCheck (n k : Nat) (groups : List (List Nat)) : Option String :=
+  let unassigned := n
+  let step (st : Array Nat × Array Bool × Option String) (g : List Nat) : Array Nat × Array Bool × Option String :=
+    let (owner, seen, err) := st
+    if err.isSome then st else
+    match g with
+    | [] => (owner, seen, some "empty group")
+    | h :: _ =>
+      if h ≥ n then (owner, seen, some s!"row {h} out of range") else
+      let key := h % k
+      if seen[key]! then (owner, seen, some s!"key {key} has more than one group (second one starts at row {h})") else
+      let seen := seen.set! key true
+      let rec go (fuel : Nat) (rows : List Nat) (prev : Option Nat) (owner : Array Nat) : Array Nat × Option String :=
+        match fuel with
+        | 0 => (owner, some "fuel")
+        | fuel + 1 =>
+          match rows with
+          | [] => (owner, none)
+          | r :: rest =>
+            if r ≥ n then (owner, some s!"row {r} out of range")
+            else if r % k != key then (owner, some s!"row {r} (key {r % k}) is in the group of key {key}")
+            else if owner[r]! != unassigned then (owner, some s!"row {r} occurs twice")
+            else if (match prev with | some p => decide (p ≥ r) | none => false) then (owner, some s!"rows of key {key} not in row order")
+            else go fuel rest (some r) (owner.set! r h)
+      let (owner, e) := go (g.length + 1) g none owner
+      (owner, seen, e)
+  let (owner, _, err) := groups.foldl step (Array.replicate n unassigned, Array.replicate k false, none)
+  match err with
+  | some e => some e
+  | none =>
+    match (List.range n).find? (fun r => owner[r]! == unassigned) with
+    | some r => some s!"row {r} is in no group"
+    | none => none
+
 def grpAdvLine (toks : Array String) : List Msg :=
   match toks[0]? with
+  | some "GB" =>
+    match runP (do
+        let n ← nat
+        let k ← nat
+        let _mul ← next
+        let t ← next
+        if t == "P" then return (n, k, none)
+        let g ← nat
+        let groups ← many g (do let l ← nat; many l nat)
+        return (n, k, some groups)) toks 1 with
+    | .error e => [{ cls := "DRIVER-ERROR", op := "grpadv", kind := "parse", detail := e }]
+    | .ok (_, _, none) => [{ cls := "SPEC-MISMATCH", op := "grpadv", kind := "panic", detail := "grouper panicked on the big input" }]
+    | .ok (n, k, some groups) =>
+      match grpBigCheck n k groups with
+      | none => [{ cls := "OK", op := "grpadv", kind := "", detail := "" }]
+      | some why => [{ cls := "SPEC-MISMATCH", op := "grpadv", kind := "groups", detail := s!"GroupBy of {n} rows with {k} distinct keys (key of row i = i mod {k}, hash = key * {toks[3]?.getD "?"}): {groups.length} groups; {why}" }]
   | some "GA" =>
     match runP (do
         let n ← nat
